@@ -588,10 +588,29 @@ async fn wait_for_pipeline_processes_and_update_status(
     shell.last_pipeline_statuses_mut().clear();
 
     while let Some(child) = process_spawn_results.pop_front() {
+        let ran_in_current_shell = pipeline.seq.len() == 1
+            || (process_spawn_results.is_empty()
+                && shell.options().run_last_pipeline_cmd_in_current_shell
+                && !shell.options().enable_job_control);
+
         let wait_result = if !stopped_children.is_empty() {
-            child.poll().await?
+            child.poll().await
         } else {
-            child.wait().await?
+            child.wait().await
+        };
+
+        let wait_result = match wait_result {
+            Ok(wait_result) => wait_result,
+            // An error (even a fatal one) raised by a stage running in its own subshell only
+            // ends that stage; report it and carry on with the rest of the pipeline.
+            Err(error) if !ran_in_current_shell => {
+                let mut stderr = params.stderr(shell);
+                let _ = shell.display_error(&mut stderr, &error);
+                ExecutionWaitResult::Completed(ExecutionResult::from(
+                    error.into_result(shell).exit_code,
+                ))
+            }
+            Err(error) => return Err(error),
         };
 
         match wait_result {
@@ -599,11 +618,6 @@ async fn wait_for_pipeline_processes_and_update_status(
                 // A stage that ran in its own subshell only hands back its exit code; an
                 // `exit`, `return`, `break` or `continue` executed there ended that subshell
                 // and must not act on this shell.
-                let ran_in_current_shell = pipeline.seq.len() == 1
-                    || (process_spawn_results.is_empty()
-                        && shell.options().run_last_pipeline_cmd_in_current_shell
-                        && !shell.options().enable_job_control);
-
                 result = if ran_in_current_shell {
                     current_result
                 } else {
@@ -700,10 +714,23 @@ impl<SE: extensions::ShellExtensions> ExecuteInPipeline<SE> for ast::Command {
                     }
                 }
 
-                Ok(compound
-                    .execute(&mut pipeline_context.shell, &params)
-                    .await?
-                    .into())
+                match pipeline_context.shell {
+                    // A compound command that runs in its own shell (a stage of a multi-command
+                    // pipeline) must run concurrently with its neighbors, or the pipe it writes
+                    // to is never drained.
+                    commands::ShellForCommand::OwnedShell { target, .. } => {
+                        let compound = compound.clone();
+                        let mut shell = *target;
+                        let join_handle = tokio::task::spawn_blocking(move || {
+                            let rt = tokio::runtime::Handle::current();
+                            rt.block_on(compound.execute(&mut shell, &params))
+                        });
+                        Ok(ExecutionSpawnResult::StartedTask(join_handle))
+                    }
+                    commands::ShellForCommand::ParentShell(shell) => {
+                        Ok(compound.execute(shell, &params).await?.into())
+                    }
+                }
             }
             Self::Function(func) => Ok(func
                 .execute(&mut pipeline_context.shell, &params)
